@@ -254,7 +254,7 @@ class MachineryError(Exception):
     """Something in the verification machinery itself failed (exit status 2)."""
 
 
-VERDICT_RE = re.compile(r'<<"V", (-?\d+), "([^"]*)", "([^"]*)">>\s*$')
+VERDICT_RE = re.compile(r'<<\s*"V",\s*(-?\d+),\s*"([^"]*)",\s*"([^"]*)"\s*>>')
 
 
 def trace_verdicts(module, records, cfg=None, tag=None, env=None, timeout=3600, chunk=None, aux=None):
@@ -291,10 +291,8 @@ def trace_verdicts(module, records, cfg=None, tag=None, env=None, timeout=3600, 
         stats["wall"] += res.wall
         stats["runs"] += 1
         got = {}
-        for line in res.out.splitlines():
-            m = VERDICT_RE.match(line.strip())
-            if m:
-                got[int(m.group(1))] = (m.group(2), m.group(3))
+        for m in VERDICT_RE.finditer(res.out):
+            got[int(m.group(1))] = (m.group(2), m.group(3))
         ids = {r["id"] for r in recs}
         if set(got) != ids:
             log = os.path.join(d, f"{tag}.{os.getpid()}.{ci}.tlc.log")
